@@ -193,6 +193,29 @@ class HDF5FileSources(Contract):
             o = Obligation(f'HDF5File::append#source.{ds}', {'C10'}, [], z3.BoolVal(bool(ok)), 'postcondition', None,
                            f'dataset {ds} must be appended from {want[0]}({",".join(map(str, want[1]))}); found {got}')
             ex.obls.append(o)
+        # ---- one record per append call (the row counters of the control skeleton rely on it): in every append
+        # overload except appendRFKicks the record-count argument of _appendData must be left at its default (1)
+        for fname, fl in tu.funcs.items():
+            short = fname.split('::')[-1]
+            if not fname.startswith('vfps::HDF5File::') or short not in ('append', 'appendTracks', 'appendPadded'):
+                continue
+            for fdef in fl:
+                k_ = 0
+                for call in _walk(fdef):
+                    if call.get('kind') not in ('CallExpr', 'CXXMemberCallExpr'):
+                        continue
+                    c = call['inner'][0]
+                    while c.get('kind') == 'ImplicitCastExpr':
+                        c = c['inner'][0]
+                    if c.get('referencedDecl', {}).get('name') != '_appendData' and c.get('name') != '_appendData':
+                        continue
+                    args = call['inner'][1:]
+                    dsn = [x.get('name') for x in _walk(args[0]) if x.get('kind') == 'MemberExpr']
+                    k_ += 1
+                    one = len(args) < 3 or args[2].get('kind') == 'CXXDefaultArgExpr' or (args[2].get('kind') == 'IntegerLiteral' and args[2].get('value') == '1')
+                    o = Obligation(f'HDF5File::{short}/{len(params(fdef))}#one_record.{dsn[0] if dsn else k_}', {'C10', 'C14'}, [], z3.BoolVal(bool(one)), 'postcondition', None,
+                                   'each call appends exactly one record to the dataset (record count argument left at 1)')
+                    ex.obls.append(o)
         # ---- constructor: axis datasets
         ctors = tu.funcs.get('vfps::HDF5File::HDF5File', [])
         if len(ctors) != 1:
